@@ -14,6 +14,7 @@ CONSTANTS
   NSEND = 4
   NFLIP = 2
   NOPEN = 1
+  AFSEND = "all"
   GROW = FALSE
 INVARIANT NoBad
 INVARIANT QueueBound
